@@ -111,6 +111,32 @@ Json gen_init(Rng &g, unsigned ev, bool cplx, bool thorough)
         }
         nout = 0;
     }
+    if (!cplx && nout > 0 && g.chance(1, 8)) {
+        // several Piecewise outputs guarded by the very same condition (and
+        // floor / ceiling of shared subexpressions): what cse() rebuilds once
+        // it has to rebuild the same way everywhere
+        Json cond = simx::rbool(g, p, 1, npool);
+        Json shared = simx::rnum(g, p, 2, npool);
+        unsigned np = 2 + (unsigned)g.below(3);
+        for (unsigned i = 0; i < np; i++) {
+            Json pw = Json::array();
+            pw.push("piecewise");
+            Json br = Json::array();
+            br.push(g.chance(1, 2) ? "floor" : (g.chance(1, 2) ? "ceiling" : "add"));
+            br.push(shared);
+            if (br[0].s == "add")
+                br.push(simx::rnum(g, p, 1, npool));
+            pw.push(br);
+            pw.push(cond);
+            pw.push(simx::rnum(g, p, 1, npool));
+            outs.push(pw);
+        }
+        Json extra = Json::array();
+        extra.push("sin");
+        extra.push(shared);
+        outs.push(extra);
+        nout = 0;
+    }
     for (unsigned i = 0; i < nout; i++) {
         if (!cplx && g.chance(1, 6))
             outs.push(simx::rbool(g, p, depth, npool));
